@@ -14,7 +14,7 @@ def mutators_without_write_lock : List Nat := []
 def seg_counts : List Nat := [16, 16, 16, 16, 16, 32, 64, 128, 256, 256, 256]
 def segmap_count_atomic : Bool := true
 def segmap_global_locks : Nat := 0
-def segmap_trylocks : Nat := 0
+def segmap_trylocks : Nat := 1
 def segment_locks : Nat := 1
 def setwithcap_defers : Nat := 0
 def setwithcap_max_lock_depth : Nat := 1
